@@ -136,6 +136,12 @@ fn encoder_history(rng: &mut Rng, out: &mut CaseOut) {
                 if can_recycle && rng.chance(1, 2) {
                     // hand the working space to another codec type / engine
                     let new_api = pick_api(rng, false);
+                    // sometimes hand the working space over for exactly the
+                    // configuration it is already set up for
+                    let (k, r, size) = match cur {
+                        Some(c) if rng.chance(1, 3) => c,
+                        _ => (k, r, size),
+                    };
                     let (k2, r2) = if gen::rate_ok(api_rate(new_api), k, r) {
                         (k, r)
                     } else {
@@ -338,6 +344,10 @@ fn decoder_history(rng: &mut Rng, out: &mut CaseOut) {
                 }
                 if api != Api::Wrapper && rng.chance(1, 2) {
                     let new_api = pick_api(rng, false);
+                    let (k, r, size) = match cur {
+                        Some(c) if rng.chance(1, 3) => c,
+                        _ => (k, r, size),
+                    };
                     let (k2, r2) = if gen::rate_ok(api_rate(new_api), k, r) {
                         (k, r)
                     } else {
